@@ -52,6 +52,8 @@ Prop *make_prop(const std::string &id);
 
 struct OpStart { int task; const J *op; uint64_t inv_step; int64_t inv_time_s; uint64_t inv_time_us; bool matched = false; bool returned = false; uint64_t ret_step = 0; };
 
+struct Retained;
+
 struct Engine {
 	J plan;
 	std::vector<OpStart> starts;           // every ll/hl op at the moment its call is invoked
@@ -70,6 +72,9 @@ struct Engine {
 	std::vector<int> phase_tasks;
 	std::deque<J> drain_ops;
 	std::vector<size_t> session_wire_begin, session_wire_end;
+	std::vector<Retained *> retained;      // query results kept across later state changes and bidib_stop (C17)
+	void recheck_retained(const char *when);
+	void release_retained();
 	size_t loop_pos = 0;
 
 	explicit Engine(const J &p) : plan(p) {}
